@@ -169,6 +169,9 @@ func v2Kinds() []fieldKind {
 		{"v2:operation", gen.S{"responses": okResp}, gen.S{"tags": gen.Arr("a"), "summary": "s", "description": "d", "externalDocs": gen.S{"url": "http://e.x"}, "operationId": "op", "consumes": gen.Arr("a/b"), "produces": gen.Arr("c/d"),
 			"parameters": gen.Arr(gen.S{"name": "p", "in": "query", "type": "string"}), "schemes": gen.Arr("https"), "deprecated": true, "security": gen.Arr(gen.S{"S": gen.Arr("x")})}, at("paths", "/p", "get")},
 		{"v2:operation(empty security)", gen.S{"responses": okResp}, gen.S{"security": gen.Arr()}, at("paths", "/p", "get")},
+		{"v2:schema(date-like examples)", gen.S{"type": "string"}, gen.S{"example": "2024-03-01T00:00:00Z"}, at("definitions", "D")},
+		{"v2:schema(date-time, date-like example)", gen.S{"type": "string", "format": "date-time"}, gen.S{"example": "2024-03-01T00:00:00Z", "default": "2024-03-01T00:00:00Z"}, at("definitions", "D")},
+		{"v2:schema(date, date example)", gen.S{"type": "string", "format": "date"}, gen.S{"example": "2024-03-01", "default": "2024-03-01", "enum": gen.Arr("2024-03-01", "2024-03-02")}, at("definitions", "D")},
 		{"v2:parameter-nonbody", gen.S{"name": "p", "in": "query", "type": "array"}, gen.S{"description": "d", "required": true, "format": "f", "allowEmptyValue": true, "items": gen.S{"type": "string"}, "collectionFormat": "csv", "default": gen.Arr("a"),
 			"maximum": 9.0, "exclusiveMaximum": true, "minimum": 1.0, "exclusiveMinimum": true, "maxLength": 9.0, "minLength": 1.0, "pattern": "^a$", "maxItems": 9.0, "minItems": 1.0, "uniqueItems": true, "enum": gen.Arr("a", "b"), "multipleOf": 2.0},
 			func(obj gen.S) gen.S {
@@ -295,6 +298,10 @@ func c03Codecs() map[string]c03codec {
 func runC03(c *core.Ctx) {
 	idx := 0
 	codecs := c03Codecs()
+	if c.Mine(idx) {
+		c03ReusedValue(c)
+	}
+	idx++
 	run := func(version, kind, field string, doc gen.S, normal bool) {
 		if c.Mine(idx) {
 			b, _ := json.Marshal(doc)
@@ -526,3 +533,68 @@ func c03File(c *core.Ctx, file string) {
 var _ = sort.Strings
 
 func mustURL(p string) *url.URL { return &url.URL{Path: p} }
+
+// c03ReusedValue: a document decoded into a value that already holds another document (a caller reusing its variable):
+// what is marshalled afterwards is the second document, nothing of the first.
+func c03ReusedValue(c *core.Ctx) {
+	okResp := gen.S{"200": gen.S{"description": "ok"}}
+	bigV3 := gen.S{"openapi": "3.0.3", "info": gen.S{"title": "first", "version": "1", "description": "d"}, "paths": gen.S{"/a": gen.S{"get": gen.S{"responses": okResp}}},
+		"servers": gen.Arr(gen.S{"url": "/v1"}), "security": gen.Arr(gen.S{"k": gen.Arr()}), "tags": gen.Arr(gen.S{"name": "t"}), "externalDocs": gen.S{"url": "http://e.x"}, "x-first": true,
+		"components": gen.S{"schemas": gen.S{"A": gen.S{"type": "string"}}, "securitySchemes": gen.S{"k": gen.S{"type": "http", "scheme": "basic"}}}}
+	smallV3 := gen.S{"openapi": "3.0.3", "info": gen.S{"title": "second", "version": "2"}, "paths": gen.S{"/b": gen.S{"post": gen.S{"responses": okResp}}}, "x-second": 1.0}
+	bigV2 := gen.S{"swagger": "2.0", "info": gen.S{"title": "first", "version": "1"}, "paths": gen.S{"/a": gen.S{"get": gen.S{"responses": okResp}}}, "host": "h.x", "basePath": "/v1", "schemes": gen.Arr("https"),
+		"consumes": gen.Arr("a/b"), "produces": gen.Arr("c/d"), "definitions": gen.S{"A": gen.S{"type": "string"}}, "securityDefinitions": gen.S{"k": gen.S{"type": "basic"}}, "security": gen.Arr(gen.S{"k": gen.Arr()}), "tags": gen.Arr(gen.S{"name": "t"}), "x-first": true}
+	smallV2 := gen.S{"swagger": "2.0", "info": gen.S{"title": "second", "version": "2"}, "paths": gen.S{"/b": gen.S{"post": gen.S{"responses": okResp}}}}
+	type tc struct {
+		name        string
+		first, then gen.S
+		mk          func() any
+	}
+	for _, t := range []tc{
+		{"openapi3.T", bigV3, smallV3, func() any { return &openapi3.T{} }},
+		{"openapi3.T (same kind of document twice)", bigV3, bigV3, func() any { return &openapi3.T{} }},
+		{"openapi2.T", bigV2, smallV2, func() any { return &openapi2.T{} }},
+	} {
+		for _, codec := range []string{"json", "yaml"} {
+			desc := fmt.Sprintf("reused %s, decoded with %s", t.name, codec)
+			c.Begin(desc)
+			first, _ := json.Marshal(t.first)
+			second, _ := json.Marshal(t.then)
+			v := t.mk()
+			var err1, err2 error
+			c.Eval()
+			pi := core.Guard(func() {
+				if codec == "json" {
+					err1 = json.Unmarshal(first, v)
+					err2 = json.Unmarshal(second, v)
+				} else {
+					err1 = yaml.Unmarshal(first, v)
+					err2 = yaml.Unmarshal(second, v)
+				}
+			})
+			w := c03Witness{Version: t.name, Kind: "root", Field: "(reused value)", Input: second}
+			if pi != nil {
+				c.Violate(core.PanicFeatures(pi), w, desc+"\n"+pi.Value)
+				continue
+			}
+			if err1 != nil || err2 != nil {
+				c.Note("%s: %v / %v", desc, err1, err2)
+				continue
+			}
+			out, err := json.Marshal(v)
+			if err != nil {
+				continue
+			}
+			c.Distinct(desc)
+			c.Cover("reused_values", t.name+"/"+codec)
+			var got, want any
+			json.Unmarshal(out, &got)
+			json.Unmarshal(second, &want)
+			if ptr, cls := firstDiff(want, got, ""); ptr != "" {
+				w.Output = string(out)
+				c.Violate(map[string]string{"kind": "reused_value_keeps_earlier_document", "object": t.name, "class": cls, "codec": codec}, w,
+					fmt.Sprintf("%s: after decoding a second document into the same value, marshalling gives %s at %s\nsecond document: %s\nmarshalled: %s", desc, cls, ptr, second, core.Truncate(string(out), 600)))
+			}
+		}
+	}
+}
